@@ -35,3 +35,29 @@ def worker(o, plan, out):
       rd(o, out)
     else:
       OPS[op](o, arg)
+
+
+# -- several instances (C29): each statement names its instance
+
+
+def rd_i(objs, i, out):
+  x = objs[i].a
+  out.append((i, x))
+
+
+def set_i(objs, i, k):
+  objs[i].a = k
+
+
+def inc_i(objs, i, c):
+  objs[i].a += c
+
+
+def worker_multi(objs, plan, out):
+  for op, i, arg in plan:
+    if op == 'read':
+      rd_i(objs, i, out)
+    elif op == '=':
+      set_i(objs, i, arg)
+    else:
+      inc_i(objs, i, arg)
